@@ -85,8 +85,13 @@ class Typer:
                 return t
             if isinstance(e.func, ast.Attribute) and e.func.attr in ("astype", "reshape", "flatten", "ravel", "copy", "squeeze", "transpose", "conjugate", "conj") and fn not in REDUCE_SAME and (fn or "").split(".")[0] != "np":
                 t = self.ty(e.func.value)
-                if e.func.attr == "astype" and t.kind == "code" and e.args and dotted(e.args[0]) in ("int", "np.int64", "np.uint64"):
-                    self.events.append(("intcast", e))
+                if e.func.attr == "astype" and t.kind == "code" and e.args:
+                    tgt = dotted(e.args[0])
+                    if tgt in ("int", "np.int64"):
+                        self.events.append(("intcast", e))
+                    elif tgt not in ("object", "np.object_", "float", "complex"):
+                        # astype(np.uint64) / astype(other.dtype): reinterprets the machine representation of the codes
+                        self.events.append(("recast", e))
                 return t
             if fn in REDUCE_SAME and e.args:
                 t = self.ty(e.args[0])
@@ -144,6 +149,10 @@ class Typer:
             return self.ty(e.operand)
         if isinstance(e, ast.BinOp):
             return self.binop(e)
+        if isinstance(e, ast.Compare):
+            for sub in [e.left] + list(e.comparators):
+                self.ty(sub)
+            return Ty("num", Term.const(0))
         if isinstance(e, ast.IfExp):
             a, b = self.ty(e.body), self.ty(e.orelse)
             if a.kind == b.kind and a.t == b.t:
@@ -211,6 +220,10 @@ class Typer:
             return Ty("code", l.t + self.term(e.right), l.ops)
         if isinstance(op, ast.RShift) and l.kind == "code":
             return Ty("code", l.t - self.term(e.right), l.ops)
+        if isinstance(op, (ast.Add, ast.Sub)) and {l.kind, r.kind} == {"code", "num"}:
+            c = l if l.kind == "code" else r
+            self.events.append(("adjust", e))
+            return Ty("code", c.t, c.ops)
         if isinstance(op, (ast.Add, ast.Sub, ast.Mod)):
             if l.kind == "code" and r.kind == "code":
                 if l.t != r.t:
